@@ -18,7 +18,8 @@ HasEof == \E x \in 1..Len(results) : results[x][1] = "eof"
 
 F == INSTANCE Framing WITH
         fr <- [i \in 1..Len(frames) |->
-                 [cls |-> IF frames[i].ok THEN "ok" ELSE "bad", canon |-> i, end |-> EndOfFrame(frames, i)]],
+                 [cls |-> IF frames[i].ok THEN "ok" ELSE "bad", canon |-> i,
+                  acls |-> IF frames[i].ok THEN "ok" ELSE "bad", acanon |-> i, end |-> EndOfFrame(frames, i)]],
         total <- Len(stream), maxb <- MAXB, got <- off,
         k <- NumFrameResults,
         closed <- closed, eofSeen <- (pc = "eofd" \/ HasEof), rdErr <- FALSE,
